@@ -5,7 +5,7 @@ Log-space values are `Option R` with `none = log 0 = -inf` (the only place `-inf
 real code for parameters in range is the accumulator initialisation and `_log_sub` of equal
 arguments).  RDP / epsilon values are `EV R` (`fin | pinf | nan`) because the real code produces
 `np.inf` (sigma = 0, alpha = inf) and `nan` (`inf * 0`, the `alpha = inf` column of the conversion)
-and `np.nanargmin` skips the latter.
+and `np.nanargmin` treats the latter as `+inf`.
 
 Not modelled: float overflow other than the `OverflowError` branch of `_log_sub` (e.g. `exp` overflow for tiny sigma),
 `-0.0`, NaN *inputs*.  Domain guard of the model (absent in the code): orders must be > 1 in the
@@ -175,14 +175,18 @@ def epsAt (rdp : EV R) (alpha : Order R) (delta : R) : EV R :=
     | .pinf => .pinf
     | .nan => .nan
 
-/-- `np.nanargmin` as a left fold: first index of the least non-NaN entry -/
+/-- `np.nanargmin` replaces every NaN by `+inf` and takes `argmin` (first index of the least key);
+the ORIGINAL entry at that index is returned – so with entries `[nan, inf, inf]` it is the NaN at
+index 0.  An all-NaN slice makes numpy raise; `get_privacy_spent` tests for it beforehand. -/
+def nanKey (x : EV R) : EV R := if x.isNaN then .pinf else x
+
 def argminStep {β : Type} (best : Option (EV R × β)) (x : EV R × β) : Option (EV R × β) :=
-  if x.1.isNaN then best else
   match best with
   | none => some x
-  | some b => if EV.lt x.1 b.1 then some x else best
+  | some b => if EV.lt (nanKey x.1) (nanKey b.1) then some x else best
 
-def nanArgmin {β : Type} (xs : List (EV R × β)) : Option (EV R × β) := xs.foldl argminStep none
+def nanArgmin {β : Type} (xs : List (EV R × β)) : Option (EV R × β) :=
+  if xs.all (fun x => x.1.isNaN) then none else xs.foldl argminStep none
 
 def orderOk (a : Order R) : Bool :=
   match a.val? with
